@@ -4,6 +4,8 @@ Scoped edits (`@name`) on a document without let layers: `set` creates the layer
 binding prunes it again. Used by C19 (reversibility of scoped edits) and C04.
 -/
 namespace Nima
+-- name tokens are compared by spelling in this file (see `NameCmp` in Model/Edit.lean)
+attribute [local instance] NameCmp.spelled
 open Node
 
 /-- a set mutation that can only hit the scratch set -/
@@ -40,9 +42,9 @@ theorem scratch_set_fresh (e : Doc) (sid : Nat) (rest k : Text) (v : Node)
       (.ok (), { e with next := e.next + 1,
                         scratch := some (.set sid [.bind e.next k false v [] []] [] true false) }) := by
   rw [setValueInAttrset_single (.set sid [] [] true false) false rest v k sid hf rfl
-    (by simp [setValues, findAttrpathRoot])]
+    (by simp [setValues, findAttrpathRoot_spelled])]
   have hb : findBinding (Node.set sid [] [] true false).setValues k = none := by
-    simp [setValues, findBinding]
+    simp [setValues, findBinding_spelled]
   simp only [hb, setSetItem, setSid?]
   simp only [EditM.bind_apply, fresh_apply, appendValue_apply, appendOrderIfNonEmpty_apply]
   rw [Doc.updSet_fuse sid _ _ (appendValueF_sid _ sid), appendOrder_appendValue,
@@ -93,7 +95,7 @@ theorem scratch_rm_last (e : Doc) (sid j : Nat) (rest k : Text) (v : Node)
   unfold removeValueInAttrset
   rw [hf]
   have hb : findBinding [Node.bind j k false v [] []] k = some (.bind j k false v [] []) := by
-    simp [findBinding, isBind, bindName?]
+    simp [findBinding_spelled, isBind, bindName?]
   simp only [findAttrpathLeaf_single, setValues, findAttrpathRoot, List.find?, isBind, bindNested,
     Bool.and_false, Bool.false_and, Option.isSome_none, Bool.false_eq_true, if_false, List.isEmpty_nil, if_true, hb,
     Option.isNone_some]
